@@ -3,6 +3,7 @@ package gen
 
 import (
 	"strings"
+	"unicode"
 
 	"pgregory.net/rapid"
 )
@@ -134,4 +135,20 @@ func AnyString(t *rapid.T, max int, label string) string {
 	default:
 		return RuneString(t, max, label)
 	}
+}
+
+// FoldKey maps s to a canonical representative of its simple-case-folding class, so that
+// FoldKey(a) == FoldKey(b) exactly when strings.EqualFold(a, b).
+func FoldKey(s string) string {
+	var sb strings.Builder
+	for _, r := range s {
+		m := r
+		for x := unicode.SimpleFold(r); x != r; x = unicode.SimpleFold(x) {
+			if x < m {
+				m = x
+			}
+		}
+		sb.WriteRune(m)
+	}
+	return sb.String()
 }
